@@ -121,3 +121,29 @@ m("c14-uninitialised-scale", "C14", 1, [("src/gm2_slha_io.cpp",
 m("c17-uninitialised-svd-result", "C17", 1, [("src/gm2_linalg.hpp",
    "    if (!m.allFinite()) {\n", "    if (false) {\n")],
   "reverts fix 3428776 (seen from the C API): values computed from uninitialised JacobiSVD results cross the interface after non-finite setter values")
+
+# lazily initialised table in calculate_mb_SM5_DRbar: three ways to do it
+_LAZY_OLD = "   // determine Lambda_QCD\n   const double lambda_qcd = calculate_lambda_qcd(alpha_s, scale);\n"
+m("c19-lazy-table-plain-bool", "C19", 1, [("src/gm2_mf.cpp", _LAZY_OLD,
+   "   static bool table_ready = false;\n   static double table[64];\n"
+   "   if (!table_ready) { for (int i = 0; i < 64; ++i) { table[i] = std::log(1.0 + i); } table_ready = true; }\n"
+   "   (void)table[7];\n" + _LAZY_OLD)],
+  "lazily built table guarded by a plain bool (racy initialisation)")
+
+m("c19-lazy-table-call-once", "C19", 0, [("src/gm2_mf.cpp", "#include <cmath>", "#include <cmath>\n#include <mutex>"), ("src/gm2_mf.cpp", _LAZY_OLD,
+   "   static std::once_flag table_once;\n   static double table[64];\n"
+   "   std::call_once(table_once, [] { for (int i = 0; i < 64; ++i) { table[i] = std::log(1.0 + i); } });\n"
+   "   (void)table[7];\n" + _LAZY_OLD)],
+  "lazily built table initialised with std::call_once: property holds")
+
+m("c19-lazy-table-double-checked-locking", "C19", 0, [("src/gm2_mf.cpp", "#include <cmath>", "#include <atomic>\n#include <cmath>\n#include <mutex>"), ("src/gm2_mf.cpp", _LAZY_OLD,
+   "   static std::atomic<bool> table_ready{false};\n   static std::mutex table_mutex;\n   static double table[64];\n"
+   "   if (!table_ready.load(std::memory_order_acquire)) {\n      std::lock_guard<std::mutex> lk(table_mutex);\n"
+   "      if (!table_ready.load(std::memory_order_relaxed)) { for (int i = 0; i < 64; ++i) { table[i] = std::log(1.0 + i); } table_ready.store(true, std::memory_order_release); }\n   }\n"
+   "   (void)table[7];\n" + _LAZY_OLD)],
+  "correct double-checked locking with an atomic flag: property holds")
+
+m("c19-lazy-table-magic-static", "C19", 0, [("src/gm2_mf.cpp", "#include <cmath>", "#include <array>\n#include <cmath>"), ("src/gm2_mf.cpp", _LAZY_OLD,
+   "   static const std::array<double, 64> table = [] { std::array<double, 64> t{}; for (int i = 0; i < 64; ++i) { t[i] = std::log(1.0 + i); } return t; }();\n"
+   "   (void)table[7];\n" + _LAZY_OLD)],
+  "function-local static initialised by a lambda (guarded by the compiler): property holds")
